@@ -366,7 +366,7 @@ fn guarded_merge(dst: &Database, src: &Database, it: &mut Intern) -> (J, Option<
     let (d, s) = (dst.clone(), src.clone());
     std::thread::spawn(move || {
         let mut d = d;
-        let r = catch(|| d.merge(&s));
+        let r = crate::panicx::catch_nowd(|| d.merge(&s));
         let _ = tx.send((r.map(|x| x.map(|l| l.events.iter().map(|e| (ev_name(&format!("{:?}", e.event_type)), idn(&e.node_uuid))).collect::<Vec<_>>()).map_err(|e| format!("{:?}", e))), d));
     });
     match rx.recv_timeout(std::time::Duration::from_secs(3)) {
